@@ -70,6 +70,8 @@ def run(prop, tier, seed, repo):
             print(f'unknown or unclaimed property {prop}')
             return 2
         explanation = fn(ctx, rep)
+        if tier == 'thorough':
+            thorough_selftest(prop, repo, rep)
         rep.extra['extraction_s'] = round(ctx.extract_s, 2)
         rep.extra['facts'] = {cfg: dict(bodies=len(c.body_list), debug_assertions=c.debug_assertions)
                               for cfg, c in ctx._crates.items()}
@@ -81,6 +83,67 @@ def run(prop, tier, seed, repo):
         traceback.print_exc()
         print(f'INFRASTRUCTURE-ERROR property={prop}: internal error in the rule engine')
         return 2
+
+
+def _eval_mutant(args):
+    from . import mutate
+    mut, repo, prop = args
+    m = dict(mut)
+    if m['kind'] == 'breaking':
+        # only this property's verdict matters here
+        m['props'] = [prop] if prop in m.get('props', []) else []
+        m['silent'] = [prop] if prop in mut.get('silent', []) else []
+        return mutate.evaluate(m, repo, [prop])
+    return mutate.evaluate(m, repo, [prop])
+
+
+def thorough_selftest(prop, repo, rep):
+    """thorough tier: replay every catalogue mutant and confirmed seeded change that concerns this property, and every
+    behaviour-preserving negative control, against scratch copies of the *current* tree.  Sensitivity / specificity of
+    the rules is measured and recorded; it never changes the verdict on the tree itself."""
+    from . import mutate
+    from concurrent.futures import ProcessPoolExecutor
+    muts = []
+    for m in mutate.load_catalogue() + mutate.seeded():
+        if m['kind'] == 'equivalent' or prop in m.get('props', []) or prop in m.get('silent', []):
+            muts.append(m)
+    with ProcessPoolExecutor(max_workers=min(12, max(1, len(muts)))) as ex:
+        results = list(ex.map(_eval_mutant, [(m, repo, prop) for m in muts]))
+    summary = dict(replayed=len(results), detected=0, missed=[], silent_as_expected=0, overreported=[], equivalent_silent=0,
+                   false_alarms=[], skipped=[])
+    samples = []
+    for m, r in zip(muts, results):
+        st = r['status']
+        if st == 'skipped':
+            summary['skipped'].append(f"{r['id']}: {r.get('reason', '')[:80]}")
+            continue
+        if r['kind'] == 'equivalent':
+            if st == 'silent':
+                summary['equivalent_silent'] += 1
+            else:
+                summary['false_alarms'].append(r['id'])
+        else:
+            expect_fire = prop in m.get('props', [])
+            fired = prop in r.get('fired', {})
+            if expect_fire and fired:
+                summary['detected'] += 1
+            elif expect_fire:
+                summary['missed'].append(r['id'])
+            elif fired:
+                summary['overreported'].append(r['id'])
+            else:
+                summary['silent_as_expected'] += 1
+        if len(samples) < 12:
+            samples.append(dict(mutant=r['id'], kind=r['kind'], note=m.get('note', '')[:100], status=st,
+                                reported=r.get('fired', {}).get(prop, [])[:3]))
+    rep.extra['mutant_selftest'] = summary
+    rep.extra['mutant_samples'] = samples
+    for mid in summary['missed']:
+        print(f'SELFTEST-WARNING property={prop}: breaking mutant {mid} was not reported (sensitivity gap; verdict on the tree unaffected)')
+    for mid in summary['false_alarms'] + summary['overreported']:
+        print(f'SELFTEST-WARNING property={prop}: behaviour-preserving / out-of-scope mutant {mid} was reported (specificity gap; verdict on the tree unaffected)')
+    print(f"{prop}: thorough self-test: {summary['detected']} breaking mutants/seeds detected, {len(summary['missed'])} missed, "
+          f"{summary['equivalent_silent']} negative controls silent, {len(summary['false_alarms'])} false alarms, {len(summary['skipped'])} skipped")
 
 
 def explain(prop, path):
